@@ -160,6 +160,102 @@ theorem validatePacket_ok (text payload ip : List UInt8) (port : Nat)
           obtain ⟨rfl, rfl, _⟩ := h
           exact ⟨n, rfl, by simp, hv⟩
 
+/-- the error statuses of validatePacket are never "OK" -/
+theorem validatePacket_error_ne_ok (text : List UInt8) (s : String)
+    (h : validatePacket validate resolve text = .ok (.error s)) : s ≠ "OK" := by
+  unfold validatePacket at h
+  intro hs
+  subst hs
+  cases hsp : splitAddrLen text with
+  | none => simp [hsp, pure, Except.pure] at h
+  | some n =>
+    obtain ⟨hle, _, _⟩ := splitAddrLen_bounds text n hsp
+    obtain ⟨d, hd⟩ := decode_no_panic text n hsp
+    simp only [hsp, bind, Except.bind, pure, Except.pure] at h
+    rw [slice_ok _ _ _ _ (by omega)] at h
+    simp only [List.drop_zero, hd] at h
+    cases d with
+    | none => simp at h
+    | some tgt =>
+      simp only [] at h
+      cases hres : resolve tgt with
+      | fail => simp [hres] at h
+      | ip ip' =>
+        simp only [hres] at h
+        cases hv : validate ip' with
+        | invalid => simp [hv] at h
+        | priv => simp [hv] at h
+        | ok =>
+          simp only [hv] at h
+          rw [slice_ok _ _ _ _ (by omega)] at h
+          simp at h
+
+/-- Every possible outcome of one client datagram, state and effects (there is no panic case). -/
+theorem upstream_cases (dnsPort : Nat) (ki : KeyInfo) (st : State) (client : String) (cip : Option Nat) (wire : Nat)
+    (opens : List Nat) (plain : List UInt8) :
+    let res := upstream dnsPort ki validate resolve st client cip wire opens plain
+    -- A: new client, no configured key opens it
+    (lookupNat st.nat client = none ∧ (∀ e ∈ st.list, opens.contains e.key = false) ∧ res = (st, [.search false])) ∨
+    -- B: new client, authenticated, destination refused / unreadable: nothing but the search report
+    (lookupNat st.nat client = none ∧ ∃ list' s, validatePacket validate resolve plain = .ok (.error s) ∧
+        res = ({ st with list := list' }, [.search true])) ∨
+    -- C: new client, association created
+    (lookupNat st.nat client = none ∧ ∃ list' e pl ip port, e ∈ st.list ∧ opens.contains e.key = true ∧
+        validatePacket validate resolve plain = .ok (.ok (pl, ip, port)) ∧
+        res = ({ st with list := list',
+                         nat := ({ client := client, sock := st.nextSock, key := e.key, keyId := e.id,
+                                   saltSize := (ki e.key).1, tagSize := (ki e.key).2 } : Assoc).onWrite port dnsPort :: st.nat,
+                         nextSock := st.nextSock + 1 },
+               [.search true, .natAdd client e.id st.nextSock, .send st.nextSock ip port pl, .report "OK" wire pl.length])) ∨
+    -- D: known client, forwarded
+    (∃ a, lookupNat st.nat client = some a ∧ opens.contains a.key = true ∧ ∃ pl ip port,
+        validatePacket validate resolve plain = .ok (.ok (pl, ip, port)) ∧
+        res = ({ st with nat := updateAssoc st.nat client (fun x => x.onWrite port dnsPort) },
+               [.search true, .send a.sock ip port pl, .report "OK" wire pl.length])) ∨
+    -- E: known client, authenticated, destination refused / unreadable
+    (∃ a, lookupNat st.nat client = some a ∧ opens.contains a.key = true ∧ ∃ s,
+        validatePacket validate resolve plain = .ok (.error s) ∧ s ≠ "OK" ∧
+        res = (st, [.search true, .report s wire 0])) ∨
+    -- F: known client, does not open under the association's key
+    (∃ a, lookupNat st.nat client = some a ∧ opens.contains a.key = false ∧
+        res = (st, [.search false, .report "ERR_CIPHER" wire 0])) := by
+  intro res
+  obtain ⟨r, hr⟩ := validatePacket_no_panic validate resolve plain
+  simp only [res]
+  unfold upstream
+  cases hn : lookupNat st.nat client with
+  | none =>
+    simp only
+    rcases CipherList.lookup_cases st.list cip (fun k => opens.contains k) with ⟨e, i, hf, hl⟩ | ⟨hf, hl⟩
+    · have hfound := CipherList.findEntry_sound (fun k => opens.contains k) st.list cip e hf
+      rw [hl]
+      simp only [hr]
+      cases r with
+      | error s => right; left; exact ⟨trivial, _, s, rfl, rfl⟩
+      | ok t =>
+        obtain ⟨pl, ip', port'⟩ := t
+        right; right; left
+        exact ⟨trivial, _, e, pl, ip', port', hfound.1, hfound.2, rfl, rfl⟩
+    · rw [hl]
+      left
+      exact ⟨trivial, (CipherList.findEntry_none_iff _ _ _).1 hf, rfl⟩
+  | some a =>
+    simp only
+    by_cases ho : opens.contains a.key = true
+    · rw [if_pos ho]
+      simp only [hr]
+      cases r with
+      | error s =>
+        right; right; right; right; left
+        exact ⟨a, rfl, ho, s, rfl, validatePacket_error_ne_ok validate resolve plain s hr, rfl⟩
+      | ok t =>
+        obtain ⟨pl, ip', port'⟩ := t
+        right; right; right; left
+        exact ⟨a, rfl, ho, pl, ip', port', rfl, rfl⟩
+    · rw [if_neg ho]
+      right; right; right; right; right
+      exact ⟨a, rfl, by simpa using ho, rfl⟩
+
 /-- the SOCKS header timedCopy builds for an IP source is 7 bytes (IPv4, IPv4-mapped) or 19 bytes -/
 theorem encodeIP_length (ip : List UInt8) (port : Nat) (h : ip.length = 4 ∨ ip.length = 16) :
     (encodeIP ip port).length = 7 ∨ (encodeIP ip port).length = 19 := by
